@@ -281,8 +281,10 @@ func (f *Font) WidthsPDF() []float64 {
 	widths := make([]float64, f.NumGlyphs())
 	switch outlines := f.Outlines.(type) {
 	case *cff.Outlines:
-		for gid, g := range outlines.Glyphs {
-			widths[gid] = g.Width * f.FontMatrix[0]
+		for gid := range outlines.Glyphs {
+			// GlyphWidthPDF takes the font dictionary matrices of CID-keyed
+			// fonts into account.
+			widths[gid] = f.GlyphWidthPDF(glyph.ID(gid)) / 1000
 		}
 		return widths
 	case *glyf.Outlines:
